@@ -192,26 +192,13 @@ def c_gmm(ctx, case):
 # ---------------------------------------------------------------------------- many rows
 
 def g_big(draw):
-    n = gen.choice(draw, [1025, 4097, 5000, 8193, 20000, 66000]) + gen.integer(draw, 0, 7)
-    cuts = sorted(set(gen.integer(draw, 1, n - 1) for _ in range(gen.integer(draw, 1, 4))))
-    chunks = [b - a for a, b in zip([0] + cuts, cuts + [n])]
-    return {"F": gen.integer(draw, 1, 3), "k": gen.integer(draw, 2, 3), "n": n, "scale": 10.0 ** gen.integer(draw, -2, 2),
-            "data_seed": gen.integer(draw, 0, 2**31 - 1), "sorted": gen.boolean(draw),
-            "chunks": chunks, "cap": gen.integer(draw, 1, 3), "thr": gen.choice(draw, [None, 1e-2]),
-            "which": gen.choice(draw, ["kmeans", "gmm"]), "sched": schedule(draw)}
+    c = gen.big_rows_case(draw)
+    c.update(cap=gen.integer(draw, 1, 3), thr=gen.choice(draw, [None, 1e-2]), which=gen.choice(draw, ["kmeans", "gmm"]),
+             sched=schedule(draw))
+    return c
 
 
-def _big_data(case):
-    """The rows are rebuilt from the case's seed (a 66000-row array does not belong in a replay file)."""
-    r = np.random.default_rng(int(case["data_seed"]))
-    F, k, n, scale = int(case["F"]), int(case["k"]), int(case["n"]), float(case["scale"])
-    centres = r.normal(0, 3, (k, F))
-    lab = r.integers(0, k, n)
-    if case["sorted"]:
-        lab = np.sort(lab)
-    X = scale * (centres[lab] + r.normal(0, 1.0, (n, F)))
-    init = X[r.choice(n, size=k, replace=False)] + scale * r.normal(0, 0.3, (k, F))
-    return X, init
+_big_data = gen.big_rows
 
 
 @REG.obligation("many_rows", g_big, quick=18, thorough=300, shard_size=3)
